@@ -151,7 +151,9 @@ PLANS["C15"] = {
                     "stopped at the same point in every drive mode and is compared like any other failing program"],
     "require": [need("programs_ok", 10000), need("programs_failing", 1000), need_set("reverse_step_variants", 14), need_set("opcodes", 18),
                 need_set("features", 30), need_set("error_kinds_compared", 8),
-                need("programs_stopped_by_insn_limit_compared", 1000), need("programs_after_an_earlier_program", 20000)],
+                need("programs_stopped_by_insn_limit_compared", 1000), need("programs_after_an_earlier_program", 20000),
+                need("programs_under_a_tight_stack_limit", 3000), need("programs_using_an_immediate_word_that_reads_a_variable", 2000),
+                need("programs_after_a_program_that_called_exit", 4000)],
 }
 
 G2_RULE = ("a G2 program is a typed word soup over the whole dictionary (collections, tags, bit-string reads and packers that move the "
@@ -335,7 +337,8 @@ PLANS["C11"] = {
     "require": [need("pairs_equal", 150000), need("failing_blocks_rejected", 300), need("purge_checks", 20000), need("sealing_probes_rejected", 20000),
                 need("compile_invariants_checked", 10000), need("block_hook_invariants_checked", 10000), need_set("positions", 9),
                 need_set("expr_classes", 17), need_set("sealing_kinds", 22), need_set("result_counts", 4),
-                need("twin_stack_probes:accepted_alike", 1000), need("twin_stack_probes:rejected_alike", 5000)],
+                need("twin_stack_probes:accepted_alike", 1000), need("twin_stack_probes:rejected_alike", 5000),
+                need("pairs_after_a_failed_program", 20000), need("pairs_submitted_as_files", 20000), need("pairs_compared_across_submission_styles", 30000)],
 }
 
 PLANS["C16"] = {
@@ -374,12 +377,13 @@ PLANS["C17"] = {
     },
     "rule": "a case plants one failing token (10 build-time kinds: unknown words incl. multi-byte names, bad literals, unbalanced "
             "closers, store to an unknown variable; 10 run-time kinds: division, type, out-of-bounds, assert, assert-eq, error, rem, "
-            "loop index outside a loop; control-structure openers given a non-flag / non-integer: if, while, do) in one of 17 scenarios (top level, loop, if, word called from the same source, from a later "
+            "loop index outside a loop; control-structure openers given a non-flag / non-integer: if, while, do) in one of 18 scenarios (top level, loop, if, word called from the same source, from a later "
             "source, through a chain of 2..5 calls, meta block, word called inside a meta block, included file, first token after an "
             "include, text injected with ~) and the token after it, the same text submitted 2..4 times, a second failing source after a "
             "first, inside a half-built definition, in the code of a file's first load after the file was included a second time (unchanged or edited in between), "
             "in a program resumed with run() after the host repaired the stack following an underflow, inside a user-defined immediate word that "
-            "runs while a later source is built), a quarter of the plain scenarios ending right after the failing token or with a comment whose last "
+            "runs while a later source is built, at the instruction at which an instruction budget of N runs out - taken from a twin that steps the "
+            "same program N times without a limit), a quarter of the plain scenarios ending right after the failing token or with a comment whose last "
             "character is multi-byte and no line end, preceded by 0..3 earlier sources (one in four rejected) and by filler with LF / "
             "CRLF / tabs / blank lines / multi-byte text / line and multi-line comments. last_err_location() must name the source "
             "(by the monitor's own count of interned sources, or the include path), the token's byte offset and text, line and column "
@@ -392,7 +396,7 @@ PLANS["C17"] = {
                [need("scenario:%s" % s, 10000) for s in ["top", "loop", "if", "called-word-same-source", "called-word-earlier-source", "deep-call-chain",
                                                        "meta-block", "word-in-meta", "included-file", "after-include", "injected-text",
                                                        "identical-sources", "second-error", "definition-body-build-error", "file-included-twice", "resumed-run",
-                                                       "immediate-word-fails-during-a-later-build"]] +
+                                                       "immediate-word-fails-during-a-later-build", "instruction-limit"]] +
                [need("token_on_last_line_without_line_end", 30000)],
 }
 
